@@ -24,6 +24,26 @@ def _specdir(work):
     return sdir
 
 
+class ProcessCrash(Exception):
+    """The test process died inside the code under test (not in the harness): a crash of the node, i.e. real-code behaviour."""
+
+    def __init__(self, where, msg, out):
+        Exception.__init__(self, msg)
+        self.where, self.msg, self.out = where, msg, out
+
+
+def _crash_or_broken(what, rc, out):
+    """The harness did not complete.  If the process was killed by a panic / fatal error whose innermost frame outside the Go
+    runtime is code under test (not an injected zz_verif file), report that as the node crashing; otherwise Broken."""
+    m = re.search(r"^(panic: .*|fatal error: .*)$", out, re.M)
+    if m:
+        frames = re.findall(r"^\t(\S+\.go):\d+", out[m.end():], re.M)
+        frames = [f for f in frames if "/src/runtime/" not in f and "/src/testing/" not in f]
+        if frames and "zz_verif" not in frames[0] and ("/node/cmd/" in frames[0] or "/node/pkg/" in frames[0]):
+            raise ProcessCrash(os.path.basename(frames[0]), m.group(1), out[-3000:])
+    raise vlib.Broken("%s did not complete (rc=%d):\n%s" % (what, rc, out[-4000:]))
+
+
 # ===================================================================== C17: scenarios
 
 def reobs_tlc_scenarios(work, n, depth, seed_):
@@ -134,6 +154,14 @@ class ReobsGen:
             caps[str(c)] = k
             if k and r.random() < 0.4:
                 fill[str(c)] = ["f%03x" % i for i in range(r.randrange(0, k + 1))]
+        sentinel = None
+        if r.random() < 0.15:                       # the largest 16-bit id is a watched chain like any other
+            ids[r.randrange(len(ids))] = 65535
+            sentinel = 65533
+            caps = {}
+            fill = {}
+            for c in ids:
+                caps[str(c)] = r.choice([1, 2, 5])
         unknown = [c for c in [0, 1, 2, 3, 4, 5, 7, 9, 10, 255, 256, 257, 10001, 65534] if c not in ids]
         txs = [self.tx() for _ in range(r.randrange(1, 7))]
         if r.random() < 0.5:
@@ -169,7 +197,10 @@ class ReobsGen:
                 steps.append({"ev": "Post", "a": {"id": self.tx() or "00", "api": r.random() < 0.5}})
             else:
                 steps.append({"ev": "DrainOut", "a": {}})
-        return {"cfg": {"caps": caps, "fill": fill, "outcap": outcap, "unit": 1}, "steps": steps, "src": "gen-random"}
+        cfg = {"caps": caps, "fill": fill, "outcap": outcap, "unit": 1}
+        if sentinel:
+            cfg["sentinel"] = sentinel
+        return {"cfg": cfg, "steps": steps, "src": "gen-random"}
 
     def phase(self):
         """Sweep of the phase between the purge ticker and the requests: forward at phase phi, ask again at a
@@ -284,7 +315,7 @@ def reobs_replay(work, scenarios, deadline_ms=10000, par=8):
                                  env={"VERIF_SCENARIOS": scp, "VERIF_TRACE": trp, "VERIF_SEED": vlib.seed(),
                                       "VERIF_DEADLINE_MS": deadline_ms, "VERIF_PAR": par}, timeout=1500)
     if "VERIF-REPLAYED" not in out:
-        raise vlib.Broken("re-observation harness did not complete (rc=%d):\n%s" % (rc, out[-4000:]))
+        _crash_or_broken("re-observation harness", rc, out)
     return vlib.read_ndjson(trp), wall
 
 
@@ -499,7 +530,9 @@ class GovGen:
 
     def key20(self):
         r = self.r
-        # keys with many letters, so that their spelling really varies
+        # keys with many letters, so that their spelling really varies; now and then the all-zero / all-ones key
+        if r.random() < 0.03:
+            return r.choice(["00" * 20, "ff" * 20])
         return "".join(r.choice("0123456789abcdefabcdefabcdef") for _ in range(40))
 
     def guardians(self):
@@ -672,7 +705,7 @@ def gov_replay(work, cases):
     rc, out, wall = vlib.go_test(work, "node", PKG, "TestVerifGovernanceReplay", INJECT,
                                  env={"VERIF_GOV_REQUESTS": inp, "VERIF_TRACE": trp, "VERIF_SEED": vlib.seed()}, timeout=1500)
     if "VERIF-REPLAYED" not in out:
-        raise vlib.Broken("governance harness did not complete (rc=%d):\n%s" % (rc, out[-4000:]))
+        _crash_or_broken("governance harness", rc, out)
     lines = vlib.read_ndjson(trp)
     if sorted(ln["t"] for ln in lines) != sorted(tmap):
         raise vlib.Broken("governance harness did not log exactly one line per message")
